@@ -3,6 +3,7 @@ package c03
 import (
 	"fmt"
 	"net"
+	"strings"
 	"testing"
 	"testing/synctest"
 	"time"
@@ -43,7 +44,7 @@ func TestC03Expiry(t *testing.T) {
 		for _, age := range ages {
 			for _, m := range udpMethods() {
 				idx++
-				if idx%n != shard || m.name == "Refresh0" || m.name == "Allocate" {
+				if idx%n != shard || m.name == "Refresh0" || strings.HasPrefix(m.name, "Allocate") {
 					continue
 				}
 				bubble(t, r, fmt.Sprintf("expiry off=%v age=%v %s", off, age, m.name), func() {
